@@ -6,5 +6,6 @@ for d in seeded/*/; do
   c=${n%%-*}
   extra=${EXTRA_CHECKS:-}
   echo "== $n"
+  if grep -q '"retired"' $d/meta.json; then echo "retired (kept for the record, not evaluated)"; continue; fi
   ./tools_seeded.py $d --adopt $n --checks $c$extra 2>&1 | grep -a "CAUGHT\|held\|inconclusive\|error\|apply" | grep -v "^RESULT" | cut -c1-200
 done
